@@ -262,6 +262,9 @@ var counter int
 // emptyMode: slices and maps are made empty but not nil
 var emptyMode bool
 
+// nilElems: the second element of every slice and one more map entry are left at their zero value (nil slices, maps, pointers as elements)
+var nilElems bool
+
 // fill sets every reachable part of v to a non-zero value.
 func fill(v reflect.Value) {
 	counter++
@@ -286,7 +289,9 @@ func fill(v reflect.Value) {
 		}
 		s := reflect.MakeSlice(v.Type(), 2, 2)
 		fill(s.Index(0))
-		fill(s.Index(1))
+		if !nilElems {
+			fill(s.Index(1))
+		}
 		v.Set(s)
 	case reflect.Array:
 		for i := 0; i < v.Len(); i++ {
@@ -303,6 +308,11 @@ func fill(v reflect.Value) {
 		e := reflect.New(v.Type().Elem()).Elem()
 		fill(e)
 		m.SetMapIndex(k, e)
+		if nilElems {
+			k2 := reflect.New(v.Type().Key()).Elem()
+			fill(k2)
+			m.SetMapIndex(k2, reflect.Zero(v.Type().Elem()))
+		}
 		v.Set(m)
 	case reflect.Pointer:
 		p := reflect.New(v.Type().Elem())
@@ -366,7 +376,7 @@ func (c c18Case) testSource() string {
 		fmt.Fprintf(b, "\t\t\tif xf.Tag != of.Tag {\n\t\t\t\tt.Errorf(\"VT-FAIL %s.%%s has tag %%q, origin has %%q\", name, xf.Tag, of.Tag)\n\t\t\t}\n\t\t}\n", gen)
 		// copies
 		fmt.Fprintf(b, "\t\tif (*%s)(nil).DeepCopyAs() != nil {\n\t\t\tt.Errorf(\"VT-FAIL DeepCopyAs of a nil *%s is not nil\")\n\t\t}\n", gen, gen)
-		fmt.Fprintf(b, "\t\tfor _, emptyMode = range []bool{false, true} {\n\t\tsrc := &%s{}\n\t\tfill(reflect.ValueOf(src).Elem())\n\t\tout := src.DeepCopyAs()\n", gen)
+		fmt.Fprintf(b, "\t\tfor mode := 0; mode < 3; mode++ {\n\t\temptyMode, nilElems = mode == 1, mode == 2\n\t\tsrc := &%s{}\n\t\tfill(reflect.ValueOf(src).Elem())\n\t\tout := src.DeepCopyAs()\n", gen)
 		fmt.Fprintf(b, "\t\tif out == nil {\n\t\t\tt.Fatalf(\"VT-FAIL DeepCopyAs of a filled %s is nil\")\n\t\t}\n", gen)
 		b.WriteString("\t\tsv, ov := reflect.ValueOf(src).Elem(), reflect.ValueOf(out).Elem()\n")
 		b.WriteString("\t\tfor i := 0; i < ot.NumField(); i++ {\n\t\t\tname := ot.Field(i).Name\n\t\t\tretained := false\n\t\t\tfor _, w := range want {\n\t\t\t\tif w == name {\n\t\t\t\t\tretained = true\n\t\t\t\t}\n\t\t\t}\n")
@@ -376,7 +386,7 @@ func (c c18Case) testSource() string {
 			fmt.Fprintf(b, "\t\t\tif name == %q {\n\t\t\t\tif wantPart := (&src.%s).DeepCopyAs(); !reflect.DeepEqual(out.%s, *wantPart) {\n\t\t\t\t\tt.Errorf(\"VT-FAIL replaced field %%s of the copy of %s is %%#v, want %%#v\", name, out.%s, *wantPart)\n\t\t\t\t}\n\t\t\t\tcontinue\n\t\t\t}\n", d.ReplaceField, d.ReplaceField, d.ReplaceField, gen, d.ReplaceField)
 		}
 		fmt.Fprintf(b, "\t\t\tif !reflect.DeepEqual(sv.FieldByName(name).Interface(), ov.Field(i).Interface()) {\n\t\t\t\tt.Errorf(\"VT-FAIL retained field %%s of the copy of %s is %%#v, source has %%#v\", name, ov.Field(i).Interface(), sv.FieldByName(name).Interface())\n\t\t\t}\n\t\t}\n", gen)
-		b.WriteString("\t\t}\n\t\temptyMode = false\n")
+		b.WriteString("\t\t}\n\t\temptyMode, nilElems = false, false\n")
 		b.WriteString("\t}\n")
 	}
 	b.WriteString("}\n")
